@@ -3,7 +3,7 @@
 import sys, os, collections
 VERIF = os.path.dirname(os.path.dirname(os.path.abspath(__file__)))
 sys.path.insert(0, os.path.join(VERIF, 'gen')); sys.path.insert(0, os.path.join(VERIF, 'bin'))
-import vbuild, conform, zoo as zoomod, desc
+import vbuild, conform, zoo as zoomod, desc, oracles
 
 def main():
     import argparse
@@ -23,7 +23,7 @@ def main():
     def on_exec(x):
         if x.mtrace is None:
             stats['nomodel'] += 1; return
-        it = [t.key(a.act) for t in x.trace]; mt = [t.key(a.act) for t in x.mtrace]
+        it = [oracles.norm_tok(t, a.cfg, a.act) for t in x.trace]; mt = [oracles.norm_tok(t, a.cfg, a.act) for t in x.mtrace]
         ok = it == mt
         retok = (x.ret < 0) or ((x.ret & 1) == (x.mret & 1) and (x.ret == 0) == (x.mret == 0))
         stats['trace_ok' if ok else 'trace_diff'] += 1
